@@ -12,7 +12,7 @@ VERIF = os.path.dirname(os.path.realpath(__file__))
 EXPECT = {
     "c02-": "C02", "c04-": "C04", "c05-": "C05", "c06-": "C06", "c07-": "C07", "c08-": "C08", "c09-": "C09",
     "c13-": "C13", "c17-": "C17", "c18-": "C18", "c20-": "C20",
-    "revert-38f3f7f": "C08", "revert-d8d7ffe": "C09", "revert-9edf10c": "C08", "revert-67eafdc": "C09", "revert-13610b4": "C08", "revert-0b70d9d": "C20", "revert-42168dd": "C20", "revert-c5afabb": "C17", "revert-26acc51": "C18", "revert-8d348d6": "C17", "revert-01c47c2": "C17", "revert-2c60732": "C13", "revert-7e8bb59": "C17", "revert-3b30ae0": "C13", "revert-a34dec2": "C08", "revert-756215a": "C13",
+    "revert-38f3f7f": "C08", "revert-d8d7ffe": "C09", "revert-9edf10c": "C08", "revert-67eafdc": "C09", "revert-13610b4": "C08", "revert-0b70d9d": "C20", "revert-42168dd": "C20", "revert-c5afabb": "C17", "revert-26acc51": "C18", "revert-8d348d6": "C17", "revert-01c47c2": "C17", "revert-2c60732": "C13", "revert-7e8bb59": "C17", "revert-3b30ae0": "C13", "revert-a34dec2": "C08", "revert-756215a": "C13", "revert-ca309e5": "C17",
 }
 
 
